@@ -1,7 +1,7 @@
 (* C09 - clipped datasets stay valid: connectivity refers to surviving elements, kept cells keep their polygon. *)
 From Coq Require Import ZArith List Bool Sorted.
 From EV Require Import Base.Index Base.ListX Model.Mask Model.UMask Model.Export Model.Clip Model.Fill Proofs.ClipP Proofs.FillP.
-From EV Require Import Model.GeomNames Proofs.GeomNamesP.
+From EV Require Import Model.GeomNames Proofs.GeomNamesP Model.AttrMerge Proofs.AttrMergeP.
 Import ListNotations.
 Open Scope Z_scope.
 
@@ -112,3 +112,21 @@ Theorem C09_mesh_geometry_variables : forall m,
      \/ m_face_y m = Some x).
 Proof. intros m. split; [apply ugrid_names_required|apply ugrid_names_optional]. Qed.
 Print Assumptions C09_mesh_geometry_variables.
+
+(* ---- the reassembled clipped dataset can be written ---- *)
+
+(* no name ends up both as an attribute and as an encoding entry of a variable, whenever the source and the reassembled
+   variable were each writable and the reassembled variable has no attribute whose name the source holds in its encoding *)
+Theorem C09_result_can_be_saved : forall s_attrs s_enc n_attrs n_enc,
+  consistent s_attrs s_enc = true -> consistent n_attrs n_enc = true -> consistent n_attrs s_enc = true ->
+  let r := like_var s_attrs s_enc n_attrs n_enc in consistent (fst r) (snd r) = true.
+Proof. exact result_saveable. Qed.
+Print Assumptions C09_result_can_be_saved.
+
+(* the code before d4bc755 (every source attribute restored) did not have that property *)
+Theorem C09_old_dataset_like_refuted : exists s_attrs s_enc n_attrs n_enc,
+  consistent s_attrs s_enc = true /\ consistent n_attrs n_enc = true /\ consistent n_attrs s_enc = true /\
+  (let r := like_var_old s_attrs s_enc n_attrs n_enc in consistent (fst r) (snd r) = false) /\
+  (let r := like_var s_attrs s_enc n_attrs n_enc in consistent (fst r) (snd r) = true).
+Proof. exact old_not_saveable. Qed.
+Print Assumptions C09_old_dataset_like_refuted.
